@@ -14,7 +14,7 @@ use common::*;
 use std::process::exit;
 
 fn registry() -> Vec<Box<dyn Check>> {
-    vec![Box::new(checks::c01::C01), Box::new(checks::c02::C02), Box::new(checks::c03::C03), Box::new(checks::c04::C04), Box::new(checks::c05::C05), Box::new(checks::c06::C06), Box::new(checks::c07::C07), Box::new(checks::c08::C08), Box::new(checks::c09::C09), Box::new(checks::c10::C10), Box::new(checks::c11::C11), Box::new(checks::c12::C12), Box::new(checks::c13::C13), Box::new(checks::c14::C14)]
+    vec![Box::new(checks::c01::C01), Box::new(checks::c02::C02), Box::new(checks::c03::C03), Box::new(checks::c04::C04), Box::new(checks::c05::C05), Box::new(checks::c06::C06), Box::new(checks::c07::C07), Box::new(checks::c08::C08), Box::new(checks::c09::C09), Box::new(checks::c10::C10), Box::new(checks::c11::C11), Box::new(checks::c12::C12), Box::new(checks::c13::C13), Box::new(checks::c14::C14), Box::new(checks::c15::C15), Box::new(checks::c16::C16), Box::new(checks::c20::C20)]
 }
 
 fn find(id: &str) -> Box<dyn Check> {
